@@ -250,6 +250,17 @@ def prefilter(ctx, res):
         res.violation(f"{fname}:{key}", f"{CREL}:{line}", msg, _plines(p))
 
     mode_atom = f"({none_bit} & {traitd}->flags)"
+    mode_forms = {mode_atom: True, f"(0 != {mode_atom})": True,
+                  f"({mode_atom} != 0)": True, f"(0 == {mode_atom})": False,
+                  f"({mode_atom} == 0)": False}
+
+    def mode_is_none(atoms_true_):
+        """True / False / None: does the path know the comparison-mode bit
+        to be set (in any of the equivalent spellings of the test)?"""
+        for form, pos in mode_forms.items():
+            if form in atoms_true_:
+                return atoms_true_[form] == pos
+        return None
     for p in paths:
         sc = SetterScan(p, valuep, traitd)
         if sc.branch != "assign" or sc.vstate not in ("ok", "skip"):
@@ -325,7 +336,7 @@ def prefilter(ctx, res):
                      f"notifiers receive old=`{old_a}`, which is not the "
                      f"previously stored value / materialised default", p)
             # why did we notify: mode none, or identity test true
-            if atoms_true.get(mode_atom) is not True:
+            if mode_is_none(atoms_true) is not True:
                 ident = [t for t, truth, _ in p.atoms if truth is True
                          and split_cmp(t, "!=")
                          and set(split_cmp(t, "!=")) == {old_a, V}]
@@ -415,7 +426,7 @@ def prefilter(ctx, res):
                       "PyDict_DelItem("))
                   or "->notifiers" in t
                   or (newv and null_test(t, a[2], newv[0]) is not None)
-                  or t == mode_atom
+                  or t in mode_forms
                   or (split_cmp(t, "==") and "->getattr" in t and any(
                       x in getter_table for x in split_cmp(t, "==")))
                   or (newv and split_cmp(t, "!=")
@@ -517,7 +528,8 @@ def _abbr(t):
 
 
 def _gate_category(t, traitd, mode_atom, V):
-    if t == mode_atom:
+    if t in (mode_atom, f"(0 != {mode_atom})", f"({mode_atom} != 0)",
+             f"(0 == {mode_atom})", f"({mode_atom} == 0)"):
         return "mode"
     sp = split_cmp(t, "!=")
     if sp and V in sp and (sp[0].startswith(("PyDict_GetItem(",
